@@ -39,12 +39,17 @@
  *   own semaphore inside a psv_* call; the harness wakes each with an abort
  *   flag and the thread leaves through the real pthread_exit, so no threads
  *   accumulate (only the few mallocs of the abandoned walk_descents leak).
+ *  The process pins itself to one CPU (hand-over speed); PSV_NOPIN=1 disables.
  *
  * The declarations below MUST mirror src/fitter/cholesky_solve.h (the runner
  * does not pass -I src/fitter); the layout is cross-checked at every create
  * (arg stride, ->id, ->state), failure => "FATAL layout", exit 9.
  */
+#ifndef _GNU_SOURCE
+#define _GNU_SOURCE 1
+#endif
 #include <pthread.h>
+#include <sched.h>
 #include <semaphore.h>
 #include <unistd.h>
 #include <stdint.h>
@@ -681,6 +686,13 @@ static bool parse_sched(const char *s, std::vector<int> &out) {
 static void reply(const std::string &s) { fputs(s.c_str(), stdout); fputc('\n', stdout); fflush(stdout); }
 
 int main() {
+	/* All scheduled threads are serialised anyway: keeping them on one CPU makes
+	 * the semaphore hand-overs ~5x cheaper.  PSV_NOPIN=1 disables this. */
+	if (!getenv("PSV_NOPIN")) {
+		int cpu = sched_getcpu();
+		cpu_set_t cs; CPU_ZERO(&cs);
+		if (cpu >= 0) { CPU_SET(cpu, &cs); sched_setaffinity(0, sizeof cs, &cs); }
+	}
 	cholmod_l_start(&g_c);
 	std::vector<char> linebuf(1 << 20);
 	char *line = &linebuf[0];
